@@ -21,7 +21,10 @@ from . import common as C
 PROPERTIES = ["C13"]
 
 KINDS = {"np": "BufferNumpy", "ba": "BufferByteArray"}
-CONFIGS = [(ka, kb, same) for ka in ("np", "ba") for kb in ("np", "ba") for same in (True, False)]
+# (kind of A, kind of B, same context).  A context creates buffers of ONE kind (ContextCpu.new_buffer -> BufferNumpy;
+# a BufferByteArray brings its own context), so two buffers of different kinds sharing a context are not a supported
+# configuration: update_from_xbuffer then hands the source's native storage to the other kind.  Not explored.
+CONFIGS = [(ka, kb, same) for ka in ("np", "ba") for kb in ("np", "ba") for same in (True, False) if not (same and ka != kb)]
 NP_KINDS = {1: ["int8", "uint8"], 2: ["int16", "uint16"], 4: ["int32", "uint32", "float32"], 8: ["int64", "uint64", "float64"]}
 ALL_KINDS = [k for w in (1, 2, 4, 8) for k in NP_KINDS[w]]
 XO_SCALAR = {"int8": "Int8", "uint8": "UInt8", "int16": "Int16", "uint16": "UInt16", "int32": "Int32", "uint32": "UInt32",
